@@ -2,4 +2,4 @@
 # run the repository's baseline suite with the hook guard off; print summary and diff of the failure set
 cd /repo && env -u PB_BSS_VERIF /venv/bin/python -m pytest -q -p no:cacheprovider --timeout=900 --continue-on-collection-errors -o addopts="--doctest-modules --doctest-continue-on-failure" 2>&1 | grep -E "^(FAILED|ERROR)|passed" | sort > /tmp/repo_tests.out
 grep passed /tmp/repo_tests.out
-grep -E "^(FAILED|ERROR)" /tmp/repo_tests.out | diff /tmp/wt/baseline_failures.txt - && echo "failure set unchanged"; exit 0
+grep -E "^(FAILED|ERROR)" /tmp/repo_tests.out | diff /verif/tools/baseline_failures.txt - && echo "failure set unchanged"; exit 0
